@@ -123,7 +123,10 @@ def gen_ctr(rng, thorough):
     bound = rng.randint(0, 10)
     nvals = rng.randint(1, 14)
     n = rng.choice([0, 1, 3, 10, 40, 120])
-    return {'t': 'ctr', 'bound': bound, 'vals': [rng.randrange(nvals) for _ in range(n)]}
+    # `peeks`: positions after which the caller READS the count of a value that was never fed (counter.default_counter[x]) –
+    # looking must not change what is tracked
+    return {'t': 'ctr', 'bound': bound, 'vals': [rng.randrange(nvals) for _ in range(n)],
+            'peeks': sorted(rng.sample(range(n + 1), min(n + 1, rng.choice([0, 0, 1, 3, 8]))))}
 
 
 def run_impl(c):
@@ -146,8 +149,13 @@ def run_impl(c):
                 'M': M, 'q': qs}
     from outrank.algorithms.sketches.counting_counters_ordinary import PrimitiveConstrainedCounter
     pc = PrimitiveConstrainedCounter(c['bound'])
-    for v in c['vals']:
+    peeks = set(c.get('peeks', []))
+    for j, v in enumerate(c['vals']):
+        if j in peeks:
+            _ = pc.default_counter[10 ** 6 + j]
         pc.add(v)
+    if len(c['vals']) in peeks:
+        _ = pc.default_counter['never fed']
     return {'res': [[k, v] for k, v in pc.default_counter.items()]}
 
 
@@ -200,7 +208,7 @@ def evaluate(ctx: Ctx, cases, oracle_only=False):
                 if [list(x) for x in model] != r['res']:
                     ctx.corr_fail('ctr', f'bound={c["bound"]} vals={c["vals"]}: impl {r["res"]} != model {model}', c)
             if spec != Atom('true'):
-                ctx.oracle_fail('ctr-bounds', f'bound={c["bound"]} vals={c["vals"]}: counter {r["res"]} over-counts / exceeds bound / inexact below bound', c)
+                ctx.oracle_fail('ctr-bounds', f'bound={c["bound"]} vals={c["vals"]} (counts of never-fed values read before the adds at positions {c.get("peeks", [])}): counter {r["res"]} over-counts / exceeds bound / inexact below bound', c)
 
 
 def corpus():
